@@ -1,3 +1,7 @@
+#[cfg(all(getong_stateright_verif, not(test)))]
+use crate::verif_hooks::parking_lot_shim as parking_lot;
+#[cfg(all(getong_stateright_verif, not(test)))]
+use crate::verif_hooks::std_shim as std;
 use parking_lot::{Condvar, Mutex};
 use std::{
     collections::VecDeque,
@@ -179,5 +183,44 @@ impl<Job> JobBroker<Job> {
     pub fn is_closed(&self) -> bool {
         let market = self.market.lock();
         !market.open && market.job_batches.is_empty() && market.open_count == 0
+    }
+}
+
+/// Gives an external simulator access to the (crate-private) job market.
+#[cfg(getong_stateright_verif)]
+pub struct JobBrokerFacade<Job>(JobBroker<Job>);
+
+#[cfg(getong_stateright_verif)]
+impl<Job: Send + 'static> JobBrokerFacade<Job> {
+    /// See [`JobBroker::new`].
+    pub fn new(thread_count: usize, close_at: Option<SystemTime>) -> Self {
+        JobBrokerFacade(JobBroker::new(thread_count, close_at))
+    }
+    /// See [`JobBroker::pop`].
+    pub fn pop(&mut self) -> VecDeque<Job> {
+        self.0.pop()
+    }
+    /// See [`JobBroker::push`].
+    pub fn push(&mut self, jobs: VecDeque<Job>) {
+        self.0.push(jobs)
+    }
+    /// See [`JobBroker::split_and_push`].
+    pub fn split_and_push(&mut self, jobs: &mut VecDeque<Job>) {
+        self.0.split_and_push(jobs)
+    }
+    /// See [`JobBroker::is_closed`].
+    pub fn is_closed(&self) -> bool {
+        self.0.is_closed()
+    }
+    /// The time type `close_at` is expressed in.
+    pub fn now() -> SystemTime {
+        SystemTime::now()
+    }
+}
+
+#[cfg(getong_stateright_verif)]
+impl<Job> Clone for JobBrokerFacade<Job> {
+    fn clone(&self) -> Self {
+        JobBrokerFacade(self.0.clone())
     }
 }
